@@ -35,11 +35,8 @@ type c14Opts struct {
 
 func c14Census(p *ePair, what string, wantSurvivorOnly bool) {
 	// mappings
-	bufferManagers.Lock()
-	nbm := len(bufferManagers.bms)
-	bufferManagers.Unlock()
-	if nbm != 0 {
-		vrt.Failf("mapping-left", "%s: the buffer manager table still holds %d entries (shared memory still mapped)", what, nbm)
+	if left := p.tableEntries(-1); len(left) != 0 {
+		vrt.Failf("mapping-left", "%s: %s", what, strings.Join(left, "; "))
 	}
 	for _, s := range []*Session{p.c, p.s} {
 		if s != nil && s.IsClosed() && s.queueManager != nil {
